@@ -98,6 +98,17 @@ int main(int argc, char **argv)
         }
         std::cout << " nla " << e->nlaSiblingCount() << "\n";
     }
+    // NLA systems: index of the system and of the sibling equations of every NLA equation
+    for (size_t i = 0; i < am->equationCount(); ++i) {
+        auto e = am->equation(i);
+        if (e->type() != AnalyserEquation::Type::NLA) continue;
+        std::cout << "xnlasys " << i << " " << e->nlaSystemIndex() << " sib";
+        for (size_t k = 0; k < e->nlaSiblingCount(); ++k) {
+            auto sb = e->nlaSibling(k);
+            for (size_t j = 0; j < am->equationCount(); ++j) if (am->equation(j) == sb) std::cout << " " << j;
+        }
+        std::cout << "\n";
+    }
     std::cout << "need";
     if (am->needEqFunction()) std::cout << " eq"; if (am->needNeqFunction()) std::cout << " neq"; if (am->needLtFunction()) std::cout << " lt";
     if (am->needLeqFunction()) std::cout << " leq"; if (am->needGtFunction()) std::cout << " gt"; if (am->needGeqFunction()) std::cout << " geq";
